@@ -139,6 +139,39 @@ func runC13(c *Ctx) {
 			c.Fail(Replay{Kind: "events", Key: c13Key(es, rej, want), Input: map[string]string{"events": w}, Expect: fmt.Sprintf("first-invalid=%d", want), Got: fmt.Sprintf("rejected-at=%d", rej)})
 		}
 	}
+	// identifier length is counted in BYTES: identifiers of 1-, 2-, 3- and 4-byte characters whose byte length is
+	// limit-1 / limit / limit+1 (and whose character count is far below), for every identifier-bearing event,
+	// under the default limit and a small one
+	for _, lim := range []uint64{rc.MaxIdent, 10, 4} {
+		rcl := rc
+		rcl.MaxIdent = lim
+		for _, unit := range []string{"i", "\u00e9", "\u65e5", "\U00020000"} {
+			for _, target := range []uint64{lim - 1, lim, lim + 1, lim + uint64(len(unit))} {
+				n := int(target) / len(unit)
+				if n == 0 {
+					continue
+				}
+				id := strings.Repeat(unit, n)
+				for len(id) < int(target) {
+					id += "x"
+				}
+				for _, es := range [][]Ev{
+					{{K: "bd"}, {K: "v", N: 0}, {K: "l"}, {K: "mk", Data: []byte(id)}, {K: "pi", N: 1}, {K: "ref", Data: []byte(id)}, {K: "e"}, {K: "ed"}},
+					{{K: "bd"}, {K: "v", N: 0}, {K: "l"}, {K: "ref", Data: []byte(id)}, {K: "mk", Data: []byte(id)}, {K: "pi", N: 1}, {K: "e"}, {K: "ed"}},
+					{{K: "bd"}, {K: "v", N: 0}, {K: "rt", Data: []byte(id)}, {K: "e"}, {K: "rec", Data: []byte(id)}, {K: "e"}, {K: "ed"}}} {
+					rej, _ := c.addRulesCase(rcl, es)
+					want, _ := wfCheck(es, rcl.MaxArray, int(rcl.MaxIdent))
+					sev := fmt.Sprintf("maxident=%d|%s", lim, evsString(es))
+					c.Count(sev, true)
+					c.Dist(fmt.Sprintf("identifier-length/unit-bytes=%d/valid=%v", len(unit), want < 0))
+					if rej != want {
+						c.Fail(Replay{Kind: "events", Key: "C13/identifier-length/" + map[bool]string{true: "accepts-too-long", false: "rejects-within-limit"}[rej < 0 || (want >= 0 && rej > want)],
+							Input: map[string]string{"events": evsString(es), "max_identifier_length": fmt.Sprint(lim)}, Expect: fmt.Sprintf("first-invalid=%d", want), Got: fmt.Sprintf("rejected-at=%d", rej)})
+					}
+				}
+			}
+		}
+	}
 	// pending forward references: 1..3 references to one id, each in value or map-key position, in
 	// every order, then the marker on an object of every class (keyable / not keyable), then more
 	// references; the requirement "keyable" must be the union over all pending references
@@ -334,6 +367,13 @@ func replayC13(r *Replay) (bool, string) {
 	es, err := parseEvs(r.Input["events"])
 	if err != nil {
 		return false, err.Error()
+	}
+	if ml := r.Input["max_identifier_length"]; ml != "" {
+		rc := defaultRulesCfg()
+		fmt.Sscan(ml, &rc.MaxIdent)
+		rej, _, _ := runRules(rc, es)
+		want, _ := wfCheck(es, rc.MaxArray, int(rc.MaxIdent))
+		return rej == want, fmt.Sprintf("expected first-invalid=%d got rejected-at=%d (max identifier length %d)", want, rej, rc.MaxIdent)
 	}
 	ok, w, g := c13Oracle(es)
 	return ok, "expected " + w + " got " + g
